@@ -27,8 +27,13 @@ MODEL_CFG = {
 def also(prop, formula, scenario):
     # the multi-instance property also owns append-only history and complete
     # storage in the scenarios with several instances
-    return prop == "C06" and bool(re.match(r"(instances|startup)/", scenario)) and \
-        formula in ("C01.PubAppendOnly", "C01.LockAppendOnly", "C04.PubBacked", "C01.PublishedWasLocked")
+    if prop == "C06" and re.match(r"(instances|startup)/", scenario):
+        return formula in ("C01.PubAppendOnly", "C01.LockAppendOnly", "C04.PubBacked", "C01.PublishedWasLocked")
+    # under tampering, "whatever it signs extends the committed tree" is the
+    # tamper property's own statement
+    if prop == "C08" and re.match(r"(tamper|startup)/", scenario):
+        return formula in ("C01.LockAppendOnly", "C01.Explained", "C07.AckTruth")
+    return False
 
 
 FAM = tracefam.Family(
